@@ -197,7 +197,13 @@ func execC17(c c17Case, x *verifkit.Ctx) (fail *verifkit.Failure) {
 			lb[st.H] = capLB(lb[st.H] + uint(st.N))
 		case "grow":
 			oldLen := len(s.Table)
+			addsBefore := s.Additions
 			s.EnsureCapacity(uint(st.N))
+			if len(s.Table) == oldLen && s.Additions != addsBefore {
+				// a request that needs no growth must leave the position inside the sample period alone:
+				// otherwise such requests (the policy makes one per insert) can postpone the aging reset for ever
+				return verifkit.Failf("sketch/noop-capacity-request-moved-sample-position", "step %d: EnsureCapacity(%d) on a table of %d changed Additions %d -> %d", i, st.N, oldLen, addsBefore, s.Additions)
+			}
 			if len(s.Table) < oldLen {
 				return verifkit.Failf("sketch/table-shrank", "step %d: EnsureCapacity(%d) shrank table %d -> %d", i, st.N, oldLen, len(s.Table))
 			}
